@@ -47,6 +47,12 @@ class ForkPool:
         self.quiet = quiet
         self._serial = 0
         os.makedirs(tmp_root, exist_ok=True)
+        # address-space cap for children: garbage pickles can ask for absurd allocations; fail fast with MemoryError
+        try:
+            vm = int(open('/proc/self/status').read().split('VmSize:')[1].split()[0]) * 1024
+        except Exception:  # noqa: BLE001
+            vm = 1 << 30
+        self.mem_limit = vm + (4 << 30)
 
     def _spawn(self, job: Job):
         self._serial += 1
@@ -61,9 +67,18 @@ class ForkPool:
             try:
                 os.close(r)
                 signal.signal(signal.SIGINT, signal.SIG_IGN)
-                faulthandler.enable()
-                faulthandler.dump_traceback_later(self.per_run_timeout * 0.9, exit=False)
                 os.makedirs(workdir, exist_ok=True)
+                stackf = open(workdir + '.stack', 'w')
+                faulthandler.enable(file=stackf)
+                faulthandler.dump_traceback_later(self.per_run_timeout * 0.8, exit=False, file=stackf)
+                try:
+                    import resource
+
+                    lim = self.mem_limit
+                    if lim:
+                        resource.setrlimit(resource.RLIMIT_AS, (lim, lim))
+                except Exception:  # noqa: BLE001
+                    pass
                 os.chdir(workdir)
                 if self.quiet:
                     dn = os.open(os.devnull, os.O_WRONLY)
@@ -86,6 +101,8 @@ class ForkPool:
                 try:
                     os.chdir('/')
                     shutil.rmtree(workdir, ignore_errors=True)
+                    if code == 0:
+                        os.unlink(workdir + '.stack')
                 finally:
                     os._exit(code)
         os.close(w)
@@ -134,6 +151,10 @@ class ForkPool:
                     pid, job, t0, buf, workdir = ent
                     _, status = os.waitpid(pid, 0)
                     shutil.rmtree(workdir, ignore_errors=True)
+                    try:
+                        os.unlink(workdir + '.stack')
+                    except OSError:
+                        pass
                     if buf:
                         try:
                             res = json.loads(bytes(buf))
@@ -157,8 +178,14 @@ class ForkPool:
                         os.close(fd)
                         del active[fd]
                         shutil.rmtree(workdir, ignore_errors=True)
+                        stack = ''
+                        try:
+                            stack = open(workdir + '.stack').read()[-3000:]
+                            os.unlink(workdir + '.stack')
+                        except OSError:
+                            pass
                         if on_result:
-                            on_result(job, {'harness_timeout': True, 'wall_s': now - t0})
+                            on_result(job, {'harness_timeout': True, 'wall_s': now - t0, 'stack': stack})
         finally:
             for fd, ent in list(active.items()):
                 try:
